@@ -598,12 +598,11 @@ impl<'a, 'b> InternalDelphiLogicalLineParser<'a, 'b> {
             level: ParserContextLevel::Level(0),
         });
 
-        let parent = self.get_line_parent_of_current_token();
-        if let Some(KK::Then) = self.get_current_keyword_kind() {
-            self.next_token(); // then
-        } else {
+        let Some(KK::Then) = self.get_current_keyword_kind() else {
             return;
         };
+        let parent = self.get_line_parent_of_current_token();
+        self.next_token(); // then
 
         trace!("Parse `then` statement");
         let mut level = ParserContextLevel::Parent(parent, 1);
@@ -649,12 +648,11 @@ impl<'a, 'b> InternalDelphiLogicalLineParser<'a, 'b> {
             level: ParserContextLevel::Level(0),
         });
 
-        let parent = self.get_line_parent_of_current_token();
-        if let Some(KK::Do) = self.get_current_keyword_kind() {
-            self.next_token(); // do
-        } else {
+        let Some(KK::Do) = self.get_current_keyword_kind() else {
             return;
         };
+        let parent = self.get_line_parent_of_current_token();
+        self.next_token(); // do
 
         trace!("Parsing `... do` statement");
         let level = ParserContextLevel::Parent(parent, 1);
